@@ -117,6 +117,7 @@ class Engine:
         self.loop_records = {}
         self.init_ref_arrays = {}
         self.init_len = None
+        self.init_len_ids = set()
         self.inst_done = set()
         self.entry_abase = None
         self.stdout = []                        # ghost stdout: (pc, template)
@@ -200,7 +201,7 @@ class Engine:
                     self.inst_done.add(i)
                     # only objects that existed at entry have initialised fields
                     self.axioms.append(z3.Implies(x.arg(1) < self.alloc0, z3.And(x >= 0, x < self.alloc0)))
-                elif self.init_len is not None and bid == self.init_len.get_id() and i not in self.inst_done:
+                elif bid in self.init_len_ids and i not in self.inst_done:
                     self.inst_done.add(i)
                     self.axioms.append(x >= 0)
             stack.extend(x.children())
@@ -223,7 +224,7 @@ class Engine:
         arr = self.harr(state, name)
         if self.safety:
             self.oblige(state, ref.e != 0, "nonnull", node, "dereference .%s" % name)
-        e = simp(z3.Select(arr, ref.e))
+        e = simp(self.sel(arr, ref.e))
         self.instantiate_heap_axioms(e)
         if t and t.startswith(("ref:", "vec:", "list:")) and not z3.is_int_value(e) and self.quant_depth == 0:
             # heap well-formedness (Python has no dangling or future references): a stored reference denotes None
@@ -231,6 +232,14 @@ class Engine:
             # loaded term mentions the bound variable.)
             self.heap_fact(z3.And(e >= 0, e < state.abase + state.nalloc))
         return self.wrap(self.norm(e), t)
+
+    @staticmethod
+    def sel(arr, idx):
+        """select with if-then-else over arrays pushed inside (merged heaps are ite(c, A, B)): reads then mention the base
+        arrays A, B directly, which is the form the quantifier triggers are written in"""
+        if z3.is_app_of(arr, z3.Z3_OP_ITE):
+            return z3.If(arr.arg(0), Engine.sel(arr.arg(1), idx), Engine.sel(arr.arg(2), idx))
+        return z3.Select(arr, idx)
 
     def heap_fact(self, f):
         """heap well-formedness facts about a loaded term are unconditional (they do not depend on the branch or the
@@ -295,12 +304,19 @@ class Engine:
                 self.init_elemI = a
         return key, a
 
-    def len_heap(self, state):
-        a = state.heap.get("$len")
+    def len_key(self, ref=None, fam=None):
+        """lengths are kept per element family: a vector of floats and a list of references are never the same object"""
+        if fam is None:
+            fam = self.seq_family(ref)
+        return "$lenR" if fam in ("vec:real", "$elemR") else "$lenI"
+
+    def len_heap(self, state, key="$lenI"):
+        a = state.heap.get(key)
         if a is None:
-            a = z3.Array("H0_" + self.prefix + "$len", IntS, IntS)
-            state.heap["$len"] = a
+            a = z3.Array("H0_" + self.prefix + key, IntS, IntS)
+            state.heap[key] = a
             self.init_len = a
+            self.init_len_ids.add(a.get_id())
         return a
 
     def elem_type(self, ref):
@@ -324,7 +340,7 @@ class Engine:
         return "vec:real" if self.elem_type(ref) == "real" else "vec:int"
 
     def vec_len(self, state, ref):
-        e = simp(z3.Select(self.len_heap(state), ref.e))
+        e = simp(self.sel(self.len_heap(state, self.len_key(ref)), ref.e))
         self.instantiate_heap_axioms(e)
         return self.norm(e)
 
@@ -340,7 +356,7 @@ class Engine:
         zi = to_z3(idx, IntS)
         if self.safety:
             self.oblige(state, z3.And(ref.e != 0, zi >= 0, zi < self.vec_len(state, ref)), "index", node)
-        e = simp(z3.Select(z3.Select(a, ref.e), zi))
+        e = simp(self.sel(self.sel(a, ref.e), zi))
         et = self.elem_type(ref)
         if et not in ("real", "int"):
             # elements of reference lists in the initial heap are pre-existing objects
@@ -384,10 +400,11 @@ class Engine:
 
     def vec_new(self, state, kind, elems=None, length=None, fill=None):
         ref = self.alloc(state, kind)
-        la = self.len_heap(state)
+        lk = self.len_key(ref)
+        la = self.len_heap(state, lk)
         if elems is not None:
             length = len(elems)
-        state.heap["$len"] = z3.Store(la, ref.e, to_z3(length, IntS))
+        state.heap[lk] = z3.Store(la, ref.e, to_z3(length, IntS))
         key, a = self.elem_heap(state, self.seq_family(ref))
         sort = RealS if key == "$elemR" else IntS
         if elems is not None:
@@ -405,8 +422,9 @@ class Engine:
     def vec_copy(self, state, src, kind=None):
         kind = kind or src.cls
         ref = self.alloc(state, kind)
-        la = self.len_heap(state)
-        state.heap["$len"] = z3.Store(la, ref.e, z3.Select(la, src.e))
+        lk = self.len_key(ref)
+        la = self.len_heap(state, lk)
+        state.heap[lk] = z3.Store(la, ref.e, self.sel(self.len_heap(state, self.len_key(src)), src.e))
         fam_src = self.seq_family(src)
         key, a = self.elem_heap(state, self.seq_family(ref))
         if fam_src == self.seq_family(ref):
@@ -478,7 +496,7 @@ class Engine:
                 if not isinstance(v, Ref):
                     self.unsupported("modifies target %s is not an object" % t)
                 kind = {"elems": "elems", "len_": "len", "obj": "obj"}[tree.func.id]
-                if kind == "elems" and (v.cls or "").startswith(("vec:", "list:")):
+                if kind in ("elems", "len") and (v.cls or "").startswith(("vec:", "list:")):
                     self.elem_family[v.e.get_id()] = "$elemR" if self.seq_family(v) == "vec:real" else "$elemI"
                 return (kind, v.e, self.spec_class(v) if kind == "obj" else None)
             if isinstance(tree, ast.Attribute):
@@ -538,10 +556,12 @@ class Engine:
                     a = z3.Const("H0_" + self.prefix + key, S)
                 state.heap[key] = z3.Store(a, r, self.fresh("hv_el", S.range()))
         elif kind == "len":
-            la = self.len_heap(state)
-            nl = self.fresh("hv_len", IntS)
-            state.heap["$len"] = z3.Store(la, r, nl)
-            state.assume(nl >= 0)
+            fam = self.elem_family.get(r.get_id())
+            for lk in (("$lenR", "$lenI") if fam is None else (self.len_key(fam=fam),)):
+                la = self.len_heap(state, lk)
+                nl = self.fresh("hv_len", IntS)
+                state.heap[lk] = z3.Store(la, r, nl)
+                state.assume(nl >= 0)
         elif kind == "obj":
             # every declared field of the object is havocked, also those no statement has touched yet
             own = self.class_fields(name) if name else None
@@ -1004,7 +1024,7 @@ class Engine:
         if isinstance(base, Ref):
             return self.vec_get(state, base, idx, node)
         if isinstance(base, ArrVal):
-            e = simp(z3.Select(base.arr, to_z3(idx, IntS)))
+            e = simp(self.sel(base.arr, to_z3(idx, IntS)))
             return self.wrap(self.norm(e), base.elem)
         if isinstance(base, Builtin):
             return base        # typing subscripts (List[...])
@@ -1477,6 +1497,15 @@ class Engine:
         saved_cls = self.cur_class
         self.cur_class = con.cls
         try:
+            # a parameter typed as a (non-optional) reference is assumed non-None inside the callee's own proof: the
+            # caller owes that fact
+            for k, t in con.params.items():
+                if isinstance(t, str) and t.startswith(("ref:", "vec:", "list:")) and not t.endswith("?") and k in env:
+                    v = env[k]
+                    if v is None:
+                        self.oblige(state, False, "requires[%s#nonnull:%s]" % (label, k), node, "%s is not None" % k)
+                    elif isinstance(v, Ref) and not (z3.is_int_value(v.e) and v.e.as_long() != 0):
+                        self.oblige(state, v.e != 0, "requires[%s#nonnull:%s]" % (label, k), node, "%s is not None" % k)
             for i, rq in enumerate(con.requires):
                 g = self.eval_spec(state, rq, env)
                 self.oblige(state, g, "requires[%s#%d]" % (label, i), node, str(rq))
@@ -1562,7 +1591,8 @@ class Engine:
                 pass
             inner = z3.Store(z3.Select(a, ref.e), n, to_z3(v, sort))
             state.heap[key] = z3.Store(a, ref.e, inner)
-            state.heap["$len"] = z3.Store(self.len_heap(state), ref.e, n + 1)
+            lk = self.len_key(ref)
+            state.heap[lk] = z3.Store(self.len_heap(state, lk), ref.e, n + 1)
             return None
         if f.name == "copy":
             return self.vec_copy(state, ref)
@@ -1717,7 +1747,7 @@ class Engine:
             else:
                 cur = merge_states(self.common_prefix(normals), normals)
             if cur is not None and self.active_ghost_after and self.call_depth == 0 and self.spec_mode == 0 and \
-                    self.cur_fn_node is not None and any(st is b for b in self.cur_fn_node.body):
+                    self.cur_fn_node is not None:
                 src = ast.unparse(st)
                 for key, gst in self.active_ghost_after.items():
                     if key in src and key not in self.ghost_after_done:
